@@ -204,9 +204,8 @@ Proof.
   intros G. unfold cfg_cids, α. rewrite elem_of_flat_map. intros (o & Ho & Hx).
   apply elem_of_app in Ho as [Ho|Ho].
   - unfold procs_objs in Ho. apply elem_of_flat_map in Ho as ([q pr] & Hq & Ho). cbn in Ho.
-    apply elem_of_map_to_list in Hq. destruct (g_procs U c G q pr Hq) as (_ & _ & Hc).
-    unfold proc_obj in Ho. destruct (pr_provs pr) as [|n [|]] eqn:Hpv; try (by apply elem_of_nil in Ho).
-    destruct (chan n) as [a|] eqn:Hn; [|by apply elem_of_nil in Ho]. apply elem_of_list_singleton in Ho as ->.
+    apply elem_of_map_to_list in Hq. destruct (g_procs U c G q pr Hq) as (((n & a & Hpv & Hn) & _) & _ & Hc).
+    unfold proc_obj, pobj in Ho. rewrite Hpv in Ho. cbn in Ho. rewrite Hn in Ho. apply elem_of_list_singleton in Ho as ->.
     apply Hc. unfold proc_cids. rewrite Hpv. apply elem_of_app.
     apply obj_cids_obj in Hx as [->|Hx]; [left|by right].
     unfold names_cids, name_cids. cbn. rewrite Hn. apply elem_of_list_here.
@@ -601,4 +600,5 @@ Proof.
     as (ls & Hs & Hl).
   exists (α (res_config r)). rewrite Hl. change (labels (init_config p)) with (@nil string). cbn.
   eapply sax_steps_perm; [symmetry; apply alpha_init|done].
+  intros q pr Hq. destruct (g_procs _ _ (ginv_init p Hlin Hnc) q pr Hq) as (((n & a & Hn & _) & _) & _). eauto.
 Qed.
